@@ -72,7 +72,57 @@ def run(ctx):
             ctx.ok("R1", f"wfn.PRIMITIVE_NAMES: {len(pn)} distinct monomials of degree 0..5", wm.relpath)
         else:
             ctx.violate("R1", f"wfn.PRIMITIVE_NAMES is not the duplicate-free set of monomials of degree 0..5 (missing {sorted(set(want) - set(pn))}, extra/duplicate {sorted(x for x in pn if x not in want or list(pn).count(x) > 1)})", relpath=wm.relpath, function="iodata.formats.wfn.PRIMITIVE_NAMES", construct="PRIMITIVE_NAMES")
-        # the table it is built from must be the module's CONVENTIONS (same object the writers use)
+        # its *order* is the TYPE ASSIGNMENTS numbering of the format: the concatenation of the module's (frozen, R6)
+        # Cartesian conventions for l = 0..5
+        try:
+            conv = ce.global_value(wm, "CONVENTIONS")
+        except NotConstant as exc:
+            raise AnalysisError(f"wfn.CONVENTIONS not constant: {exc}") from exc
+        want_order = [x for l in range(6) for x in conv[(l, "c")]]
+        if list(pn) == want_order:
+            ctx.ok("R1", "wfn.PRIMITIVE_NAMES lists the monomials in the order of the WFN conventions for l = 0..5 (type number = position + 1)", wm.relpath)
+        else:
+            k = next(i for i, (a, b) in enumerate(zip(list(pn) + [None] * len(want_order), want_order)) if a != b)
+            ctx.violate("R1", f"wfn.PRIMITIVE_NAMES[{k}] is `{list(pn)[k] if k < len(pn) else None}`, the WFN type number {k + 1} is `{want_order[k]}`: primitive types are mis-assigned on reading and writing", relpath=wm.relpath, function="iodata.formats.wfn.PRIMITIVE_NAMES", construct=f"PRIMITIVE_NAMES order at {k}")
+    # angular-momentum letters (used by the Molden, Molekel and CP2K readers / writers): frozen spectroscopic sequence
+    bm = prog.module("iodata.basis")
+    try:
+        chars = ce.global_value(bm, "ANGMOM_CHARS")
+    except NotConstant as exc:
+        raise AnalysisError(f"basis.ANGMOM_CHARS not constant: {exc}") from exc
+    if isinstance(chars, str) and chars.startswith("spdfghiklmnoqrtuvwxyz") and len(set(chars)) == len(chars):
+        ctx.ok("R1", "basis.ANGMOM_CHARS is the spectroscopic sequence s p d f g h i k l m n o q r t u v w x y z (no j) without repeats", bm.relpath)
+    else:
+        ctx.violate("R1", f"basis.ANGMOM_CHARS is `{chars}`: the spectroscopic sequence is spdfghiklmnoqrtuvwxyz (no j, no repeats); shells are read with another angular momentum", relpath=bm.relpath, function="iodata.basis.ANGMOM_CHARS", construct="ANGMOM_CHARS")
+    from ..accessors import AccessorEval, Raised as _Raised
+    from ..symarr import NotSymbolic as _NS
+
+    sti, its = prog.funcs.get("iodata.basis.angmom_sti"), prog.funcs.get("iodata.basis.angmom_its")
+    if sti is None or its is None:
+        raise AnalysisError("basis.angmom_sti / angmom_its not found")
+    badc = None
+    try:
+        for l, ch in enumerate("spdfghik"):
+            for spelled in (ch, ch.upper()):
+                got = AccessorEval(prog, None).run_free(sti, [spelled], {})
+                if got != l:
+                    badc = badc or f"angmom_sti({spelled!r}) = {got!r}, expected {l}"
+            got = AccessorEval(prog, None).run_free(its, [l], {})
+            if got != ch:
+                badc = badc or f"angmom_its({l}) = {got!r}, expected {ch!r}"
+        try:
+            got = AccessorEval(prog, None).run_free(its, [-1], {})
+            badc = badc or f"angmom_its(-1) = {got!r} instead of ValueError"
+        except _Raised:
+            pass
+    except _Raised as exc:
+        badc = f"raises {exc.args[0]} for a valid argument"
+    except _NS as exc:
+        raise AnalysisError(f"angmom_sti / angmom_its are outside the evaluation whitelist: {exc}") from exc
+    if badc:
+        ctx.violate("R1", f"angular-momentum letters: {badc}", sti, sti.node, construct=f"angmom letters: {badc}"[:150])
+    else:
+        ctx.ok("R1", "angmom_sti / angmom_its evaluated for l = 0..7 (lower and upper case): letter <-> number as in the spectroscopic sequence", sti.where)
     # R6: order and signs of every format table equal the frozen specification
     import json, os
     from ..tables import spec_label
@@ -217,6 +267,17 @@ def run(ctx):
             users.append(f)
     check_local_memos(ctx, "R7", users, "functions that use convention tables")
     ctx.floor("R7", len(users), 12, "functions using convention tables")
+    # every writer and reader calls the converters without `reverse`: the documented default (False: object -> target
+    # direction) is part of their meaning
+    for q in ("iodata.convert.convert_conventions", "iodata.convert._convert_convention_shell"):
+        g = prog.funcs.get(q)
+        if g is None:
+            raise AnalysisError(f"{q} not found")
+        d = g.default_of("reverse")
+        if isinstance(d, ast.Constant) and d.value is False:
+            ctx.ok("R3", f"{g.name}: `reverse` defaults to False", g.where)
+        else:
+            ctx.violate("R3", f"{g.name}: `reverse` defaults to `{src_of(d) if d is not None else '<no default>'}`: every call site that omits it (all writers and readers) converts in the opposite direction", g, g.node, construct=f"{g.name} reverse default")
     # the factors that multiply converted rows must be in the converted order too (shared with C01-R4): otherwise the
     # written block is not a signed permutation of the stored one
     ctx.borrow("c01", {"R4": "R8", "R9": "R9"})
